@@ -10,12 +10,17 @@ step  = {"k":"cell","mode":"cell"|"rt","stmts":[stmt]}            statements exe
                                                                    "rt": evaluated with auto_start on, as code running inside a
                                                                    function of a started context does)
       | {"k":"files","write":{"s1":[stmt]|null},"reload":"plain"|"all"}   write/delete script files, call pyscript.reload
-      | {"k":"state","ent":e} | {"k":"event","ev":v} | {"k":"tick"} | {"k":"call","gen":g}      occurrences
+      | {"k":"state","ent":e} | {"k":"event","ev":v} | {"k":"tick"} | {"k":"call","svc":n}      occurrences
+      | {"k":"resume"}                                             open the gate (see "gate")
+  a cell/files step may carry "gate": true: from then on every ServiceDecorator.start() waits inside its
+  `await State.get_service_params()` until a "resume" step (the name State inside decorators/service.py is replaced by a
+  stand-in whose get_service_params() waits for an asyncio.Event and then delegates to the real one)
       | {"k":"unload"}                                             hass.config_entries.async_unload(entry)
 stmt  = {"s":"def","slot":n,"gen":g,"spec":spec} | {"s":"del","slot":n} | {"s":"alias","dst":n,"src":m} | {"s":"none","slot":n}
       | {"s":"lnew","gen":g,"spec":spec} | {"s":"lslot","slot":n} | {"s":"lpop"} | {"s":"lclear"}
       | {"s":"dnew","key":k,"gen":g,"spec":spec} | {"s":"dslot","key":k,"slot":n} | {"s":"ddel","key":k}
-spec  = {"states":[[ident]], "events":[v], "times":[{"p":bool,"su":bool,"sd":bool}], "svc":bool}
+spec  = {"states":[[ident]], "events":[v], "times":[{"p":bool,"su":bool,"sd":bool}], "svc":null|name id, "pos":k}
+        (@service("pvsvc.s<name id>") is placed in front of the k-th trigger decorator)
 ident = {"e":ent,"k":0 plain|1 value|2 sub|3 deep,"t":tag,"any":bool}
 """
 import asyncio
@@ -66,8 +71,9 @@ def dec_lines(spec, gen, gen_expr):
         if t.get("p"):
             a.append('"period(now + 60s, 100s)"')
         lines.append(f"@time_trigger({', '.join(a)})")
-    if spec.get("svc"):
-        lines.append(f'@service("pvsvc.g%d" % {gen_expr})')
+    if spec.get("svc") is not None:
+        pos = max(0, min(int(spec.get("pos", len(lines))), len(lines)))
+        lines.insert(pos, f'@service("pvsvc.s{spec["svc"]}")')
     return lines
 
 
@@ -136,9 +142,26 @@ def task_names():
     return names
 
 
+class Gate:
+    """stand-in for the name State in decorators/service.py: get_service_params() can be held back"""
+
+    def __init__(self, real):
+        self.real = real
+        self.event = asyncio.Event()
+        self.event.set()
+
+    def __getattr__(self, name):
+        return getattr(self.real, name)
+
+    async def get_service_params(self):
+        await self.event.wait()
+        return await self.real.get_service_params()
+
+
 class Driver:
     def __init__(self, case):
         self.case = case
+        self.gate = None
         self.orders = {}      # marker -> list of names in the iteration order State.notify_del saw
         self.mtime = 1000.0
         self.unloaded = False
@@ -163,7 +186,8 @@ class Driver:
         names = task_names()
         tasks = len([n for n in names if n in TRIG_CORO])
         actions = len([n for n in names if any(n.endswith(a) for a in ACTION_CORO)])
-        svcs = sorted(int(s[1:]) for s in env.hass.services.async_services().get("pvsvc", {}))
+        reg = sorted(int(s[1:]) for s in env.hass.services.async_services().get("pvsvc", {}))
+        svcs = sorted([int(k[len("pvsvc.s"):]), v] for k, v in Function.service_cnt.items() if k.startswith("pvsvc.s") and v)
         runs = []
         for _t, typ, data in env.events[n0:]:
             if typ != "pv_run":
@@ -182,7 +206,7 @@ class Driver:
             extra["our_tasks"] = len([t for t in Function.our_tasks if not t.done()])
             extra["contexts"] = len(__import__("custom_components.pyscript.global_ctx", fromlist=["x"]).GlobalContextMgr.contexts)
         extra_ok = all(v == 0 for v in extra.values())
-        return {"state": sorted(state), "event": sorted(event), "bus": sorted(bus), "tasks": tasks, "svc": svcs,
+        return {"state": sorted(state), "event": sorted(event), "bus": sorted(bus), "tasks": tasks, "svc": svcs, "reg": reg,
                 "runs": sorted(runs), "extra_ok": extra_ok, "extra": extra, "t": round(env.now(), 3)}
 
     async def quiesce(self, env):
@@ -236,7 +260,12 @@ class Driver:
     async def do_step(self, env, st):
         k = st["k"]
         err = None
-        if k == "cell":
+        if st.get("gate") and self.gate is not None:
+            self.gate.event.clear()
+        if k == "resume":
+            if self.gate is not None:
+                self.gate.event.set()
+        elif k == "cell":
             err = await self.live_exec(env, st.get("mode", "cell"), stmts_src(st["stmts"]))
         elif k == "files":
             for name, stmts in sorted(st["write"].items()):
@@ -259,9 +288,9 @@ class Driver:
             await self.quiesce(env)
             await env.advance(TICK)
         elif k == "call":
-            if env.hass.services.has_service("pvsvc", f"g{st['gen']}"):
+            if env.hass.services.has_service("pvsvc", f"s{st['svc']}"):
                 try:
-                    await env.hass.services.async_call("pvsvc", f"g{st['gen']}", {}, blocking=True)
+                    await env.hass.services.async_call("pvsvc", f"s{st['svc']}", {}, blocking=True)
                 except Exception as exc:  # pylint: disable=broad-except
                     err = f"{type(exc).__name__}: {exc}"
         elif k == "unload":
@@ -290,6 +319,12 @@ class Driver:
 
         out = []
         State.notify_del = classmethod(rec_notify_del)
+        svcmod = None
+        if not self.case["legacy"]:
+            import custom_components.pyscript.decorators.service as svcmod
+
+            self.gate = Gate(svcmod.State)
+            svcmod.State = self.gate
         try:
             async with PyscriptEnv(files={}, legacy=bool(self.case["legacy"])) as env:
                 await env.settle()
@@ -311,6 +346,9 @@ class Driver:
                     out.append(snap)
         finally:
             State.notify_del = classmethod(orig_del)
+            if svcmod is not None:
+                self.gate.event.set()
+                svcmod.State = self.gate.real
             gc.unfreeze()
         return {"steps": out, "orders": self.orders}
 
